@@ -124,18 +124,8 @@ func (e *EventEmitter) handleSubscriber(ctx context.Context, sub event.Subscript
 			}
 
 			condProcess.L.Lock()
-			if queue.Len() == 0 {
-				// try to push event to the queue
-				select {
-				case cevent <- e:
-					condProcess.L.Unlock()
-					continue
-				default:
-				}
-			}
-
-			// push elem to the queue if the channel is blocking or
-			// we already have some events to process
+			// always go through the queue: the goroutine draining it is then the only
+			// sender on cevent, which keeps the events in emission order
 			queue.PushBack(e)
 			// signal that we have element to process
 			condProcess.Signal()
